@@ -223,8 +223,19 @@ class Interpreter:
                     i = self._ws(s, i)
                     c, tens, i = self.parse_product(s, i)
                     scal = scal * c % self.p
-                    if len(tens) != 1:
-                        raise InterpError('operand is not a single tensor')
+                    if not tens:
+                        raise InterpError('operand holds no tensor')
+                    if len(tens) > 1:
+                        # 'A(..) * B(..)' is the emitted form of an outer
+                        # product (an inner contraction without summed index)
+                        seen = set()
+                        for _, lab in tens:
+                            if seen & set(lab):
+                                raise InterpError('product operand with a '
+                                                  'label on two factors')
+                            seen |= set(lab)
+                        lab_all = [t for _, lab in tens for t in lab]
+                        tens = [self.contract_checked(tens, lab_all)]
                     ops.append(tens[0])
                     i = self._ws(s, i)
                     if s[i] == ',':
